@@ -388,7 +388,7 @@ PROPERTIES = {
         "crash_is_violation": True,
         "rule": ("generated deterministic models (3..5 modules, ring or star, 1..2 start stages, timers that inject tokens which are forwarded with a hop budget, "
                  "optional tasks with timer steps, a quarter of the modules shuts down and restarts after its k-th message); for every model a fault-free baseline run gives the occurrence counts, then EVERY single placement "
-                 "(module x {at_sim_start(stage), start stage of the restart, k-th handle_message before / after its sends, at_sim_end} x {non-catching, catching stereotype} (a share of the handler faults is raised inside the simulator: the documented panic of sending on a transit gate), plus every step "
+                 "(module x {at_sim_start(stage), start stage of the restart, k-th handle_message before / after its sends, at_sim_end} x {non-catching, catching stereotype} (a share of the handler faults is raised inside the simulator: the documented panic of sending on a transit gate; every second handler placement also in the form 'spawn a task that would send a token to a neighbour, then fault' - the task must never be polled), plus every step "
                  "of a joined task, registered with join and with try_join - half of the modules register a never-finishing service task with try_join first) and pairs of placements in two modules (all pairs for small models, 60 sampled otherwise) are executed twice with the real "
                  "code: A panics at the point, B falls silent there. Oracle: A returns (no unwind, no abort: a dead worker counts as violation), the error lists "
                  "exactly the modules whose reached fault is not caught (PanicError / JoinError paths), every non-faulty module's log in A equals its log in B, the "
@@ -406,9 +406,11 @@ PROPERTIES = {
         "floor": {
             "quick": {"fault_placements_executed": 250000, "double_fault_placements": 40000, "faults_at_sim_start": 15000, "faults_at_sim_end": 10000,
                       "faults_in_handle_message_after_sending": 120000, "faults_in_joined_task": 8000, "faults_with_catching_stereotype": 120000,
-                      "followup_simulations": 250000, "models": 900, "faults_in_try_joined_task_registered_after_a_running_one": 2000},
+                      "followup_simulations": 250000, "models": 900, "faults_in_try_joined_task_registered_after_a_running_one": 2000,
+                      "faults_right_after_spawning_a_task_that_would_send": 30000},
             "thorough": {"fault_placements_executed": 4000000, "double_fault_placements": 600000, "faults_in_joined_task": 120000, "models": 15000,
-                         "faults_in_try_joined_task_registered_after_a_running_one": 30000},
+                         "faults_in_try_joined_task_registered_after_a_running_one": 30000,
+                      "faults_right_after_spawning_a_task_that_would_send": 300000},
         },
     },
     "C20": {
